@@ -22,6 +22,8 @@ type Conn struct {
 	rbuf    []byte
 	EOF     bool
 	MaxRead int      // largest number of octets handed out per Read (0 = unlimited): TCP segmentation
+	Bounds  []int    // stream offsets (from the first octet ever fed) no Read crosses: segment boundaries
+	pos     int      // stream offset of the next octet to be read
 	Written [][]byte // every Write, in order
 	OnWrite func(c *Conn, p []byte)
 	Closed  int // number of Close calls
@@ -68,8 +70,14 @@ func (c *Conn) Read(p []byte) (int, error) {
 	if c.MaxRead > 0 && n > c.MaxRead {
 		n = c.MaxRead
 	}
+	for _, b := range c.Bounds {
+		if b > c.pos && b < c.pos+n {
+			n = b - c.pos
+		}
+	}
 	copy(p, c.rbuf[:n])
 	c.rbuf = c.rbuf[n:]
+	c.pos += n
 	return n, nil
 }
 
